@@ -279,9 +279,9 @@ theorem nttLevels_spec (r : ReducK) (hr : ReducOK q r) :
 /-! ### the first pass and the whole forward transform -/
 
 /-- element-wise multiplication by the packed twiddles `σ, σρ, σρ², …` -/
-theorem twist_spec (m : StepMeta) (D : Nat) (ok : SpmOK q m D) (ρ : ZMod q) (red : Nat → Nat)
-    (hred : ∀ x, x < 2 ^ 64 → cz q (red x) = cz q x ∧ red x ≤ D) :
-    ∀ (v tw : List Nat) (σ : ZMod q), v.length = tw.length → AllLe (2 ^ 64 - 1) v → TwFrom q m.halfBs ρ σ tw →
+theorem twist_spec (m : StepMeta) (Min D : Nat) (ok : SpmOK q m D) (ρ : ZMod q) (red : Nat → Nat)
+    (hred : ∀ x, x ≤ Min → cz q (red x) = cz q x ∧ red x ≤ D) :
+    ∀ (v tw : List Nat) (σ : ZMod q), v.length = tw.length → AllLe Min v → TwFrom q m.halfBs ρ σ tw →
       (List.zipWith (fun x po => splitPrecompmul (red x) po m.halfBs m.mask) v tw).map (cz q) = scaleFrom σ ρ (v.map (cz q)) ∧
       AllLe (spmBound q m.halfBs D) (List.zipWith (fun x po => splitPrecompmul (red x) po m.halfBs m.mask) v tw) ∧
       (List.zipWith (fun x po => splitPrecompmul (red x) po m.halfBs m.mask) v tw).length = v.length := by
@@ -294,7 +294,7 @@ theorem twist_spec (m : StepMeta) (D : Nat) (ok : SpmOK q m D) (ρ : ZMod q) (re
     | po :: tw', hl, htw =>
       obtain ⟨hp, htw'⟩ := htw
       obtain ⟨hx, hxs⟩ := hle.cons
-      obtain ⟨e0, l0⟩ := hred x (by omega)
+      obtain ⟨e0, l0⟩ := hred x hx
       obtain ⟨e1, l1⟩ := spm_spec m D (red x) po σ ok l0 hp
       obtain ⟨i1, i2, i3⟩ := ih tw' (σ * ρ) (by simpa using hl) hxs htw'
       simp only [List.zipWith_cons_cons, List.map_cons, scaleFrom, List.length_cons] at *
@@ -323,12 +323,200 @@ theorem nttK_spec (t : TableK) (ω : ZMod q) (ok : FwdTableOK q t ω) (v : List 
   | (m0, tw0) :: rest, hl =>
     obtain ⟨sp, htl, htw, hrest⟩ := hl
     have hv' : v.length = 2 ^ rest.length := by rw [hlv] at hv; simpa using hv
-    obtain ⟨e1, b1, n1⟩ := twist_spec m0 (2 ^ 64 - 1) sp ω id (fun x hx => ⟨rfl, by simp only [id]; omega⟩) v tw0 1
+    obtain ⟨e1, b1, n1⟩ := twist_spec m0 (2 ^ 64 - 1) (2 ^ 64 - 1) sp ω id (fun x hx => ⟨rfl, hx⟩) v tw0 1
       (by rw [hv', htl]) hu htw
     simp only [id] at e1 b1 n1
     obtain ⟨e2, n2⟩ := nttLevels_spec t.reduc hr rest (ω * ω) _ _ hrest (by rw [n1, hv']) b1
     simp only [List.length_cons, Nat.add_sub_cancel]
     rw [e2, e1, scalePow_eq_scaleFrom]
+    exact ⟨rfl, by rw [n2, n1]⟩
+
+/-! ### one inverse block -/
+
+/-- numeric conditions of the twiddled inverse butterfly `bo = b·tw; (a + bo, a + q2bs − bo)` on inputs
+bounded by `M'` -/
+structure InvOK (q : Nat) (m : StepMeta) (M' : Nat) : Prop where
+  spm : SpmOK q m M'
+  sum_lt : M' + spmBound q m.halfBs M' < 2 ^ 64
+  no_underflow : spmBound q m.halfBs M' ≤ m.q2bs
+
+theorem invTail_spec (r : ReducK) (hr : ReducOK q r) (m : StepMeta) (M : Nat) (hM : M < 2 ^ 64)
+    (ok : BflyOK q m (redBound r m.reduce M)) (ρ : ZMod q) :
+    ∀ (tw lo hi : List Nat) (σ : ZMod q), tw.length = lo.length → lo.length = hi.length → AllLe M lo → AllLe M hi →
+      (tw ≠ [] → InvOK q m (redBound r m.reduce M)) → TwFrom q m.halfBs ρ σ tw →
+      (invTail r m tw lo hi).1.map (cz q) = addL (lo.map (cz q)) (scaleFrom σ ρ (hi.map (cz q))) ∧
+      (invTail r m tw lo hi).2.map (cz q) = subL (lo.map (cz q)) (scaleFrom σ ρ (hi.map (cz q))) ∧
+      AllLe (redBound r m.reduce M + spmBound q m.halfBs (redBound r m.reduce M)) (invTail r m tw lo hi).1 ∧
+      AllLe (redBound r m.reduce M + m.q2bs) (invTail r m tw lo hi).2 ∧
+      (invTail r m tw lo hi).1.length = lo.length ∧ (invTail r m tw lo hi).2.length = lo.length := by
+  intro tw
+  induction tw with
+  | nil =>
+    intro lo hi σ h1 h2 _ _ _ _
+    have : lo = [] := List.length_eq_zero_iff.mp h1.symm
+    subst this
+    have : hi = [] := List.length_eq_zero_iff.mp h2.symm
+    subst this
+    simp [invTail, addL, subL, scaleFrom, AllLe]
+  | cons po tw ih =>
+    intro lo hi σ h1 h2 hlo hhi hinv htw
+    match lo, hi, h1, h2 with
+    | a :: lo', b :: hi', h1, h2 =>
+      have h1' : tw.length = lo'.length := by simpa using h1
+      have h2' : lo'.length = hi'.length := by simpa using h2
+      obtain ⟨haM, hlo'⟩ := hlo.cons
+      obtain ⟨hbM, hhi'⟩ := hhi.cons
+      have iv := hinv (by simp)
+      obtain ⟨hp, htw'⟩ := htw
+      obtain ⟨ea, la⟩ := redIf_spec r hr m a M haM hM
+      obtain ⟨eb, lb⟩ := redIf_spec r hr m b M hbM hM
+      obtain ⟨e3, l3⟩ := spm_spec m _ (redIf r m b) po σ iv.spm lb hp
+      obtain ⟨i1, i2, i3, i4, i5, i6⟩ := ih lo' hi' (σ * ρ) h1' h2' hlo' hhi' (fun _ => iv) htw'
+      have hs := iv.sum_lt
+      have hu := iv.no_underflow
+      have hd := ok.diff_lt
+      set bo := splitPrecompmul (redIf r m b) po m.halfBs m.mask with hbo
+      have w1 : wu64 (redIf r m a + bo) = redIf r m a + bo := wu64_of_lt _ (by omega)
+      have w2 : wu64 (redIf r m a + m.q2bs) = redIf r m a + m.q2bs := wu64_of_lt _ (by omega)
+      have w3 : subU64 (redIf r m a + m.q2bs) bo = redIf r m a + m.q2bs - bo := by unfold subU64; omega
+      have c1 : cz q (redIf r m a + bo) = cz q a + cz q b * σ := by
+        unfold cz at *; push_cast; rw [ea, e3, eb]
+      have c2 : cz q (redIf r m a + m.q2bs - bo) = cz q a - cz q b * σ := by
+        unfold cz at *
+        have hle : bo ≤ redIf r m a + m.q2bs := by omega
+        rw [Nat.cast_sub hle]; push_cast
+        have hq : ((m.q2bs : Nat) : ZMod q) = 0 := (ZMod.natCast_eq_zero_iff _ _).mpr ok.q_dvd
+        rw [ea, e3, eb, hq]; ring
+      simp only [invTail, List.map_cons, addL, subL, List.zipWith_cons_cons, scaleFrom, List.length_cons] at *
+      rw [← hbo, w1, w2, w3]
+      refine ⟨?_, ?_, ?_, ?_, ?_, ?_⟩
+      · rw [c1, i1]
+      · rw [c2, i2]
+      · intro x hx
+        rcases List.mem_cons.mp hx with rfl | hx
+        · omega
+        · exact i3 x hx
+      · intro x hx
+        rcases List.mem_cons.mp hx with rfl | hx
+        · omega
+        · exact i4 x hx
+      · rw [i5]
+      · rw [i6]
+
+/-- worst-case magnitude after one inverse level -/
+def invOut (q : Nat) (r : ReducK) (m : StepMeta) (M : Nat) (last : Bool) : Nat :=
+  let M' := redBound r m.reduce M
+  if last then max (2 * M') (M' + m.q2bs) else max (2 * M') (max (M' + m.q2bs) (M' + spmBound q m.halfBs M'))
+
+/-- **one inverse block**: `intt_butterfly_block` computes `(lo + hi·ρ^i, lo − hi·ρ^i)` modulo `q` -/
+theorem invBfly_spec (r : ReducK) (hr : ReducOK q r) (m : StepMeta) (M : Nat) (hM : M < 2 ^ 64)
+    (ok : BflyOK q m (redBound r m.reduce M)) (ρ : ZMod q) (tw lo hi : List Nat)
+    (h1 : tw.length + 1 = lo.length) (h2 : lo.length = hi.length) (hlo : AllLe M lo) (hhi : AllLe M hi)
+    (hinv : tw ≠ [] → InvOK q m (redBound r m.reduce M)) (htw : TwFrom q m.halfBs ρ ρ tw) :
+    (invBfly r m tw lo hi).1.map (cz q) = addL (lo.map (cz q)) (scalePow ρ (hi.map (cz q))) ∧
+    (invBfly r m tw lo hi).2.map (cz q) = subL (lo.map (cz q)) (scalePow ρ (hi.map (cz q))) ∧
+    AllLe (invOut q r m M tw.isEmpty) (invBfly r m tw lo hi).1 ∧ AllLe (invOut q r m M tw.isEmpty) (invBfly r m tw lo hi).2 ∧
+    (invBfly r m tw lo hi).1.length = lo.length ∧ (invBfly r m tw lo hi).2.length = lo.length := by
+  match lo, hi, h1, h2 with
+  | a :: lo', b :: hi', h1, h2 =>
+    have h1' : tw.length = lo'.length := by simpa using h1
+    have h2' : lo'.length = hi'.length := by simpa using h2
+    obtain ⟨haM, hlo'⟩ := hlo.cons
+    obtain ⟨hbM, hhi'⟩ := hhi.cons
+    obtain ⟨e1, l1, e2, l2⟩ := bfly_spec r hr m a b M haM hbM hM ok
+    obtain ⟨i1, i2, i3, i4, i5, i6⟩ := invTail_spec r hr m M hM ok ρ tw lo' hi' ρ h1' h2' hlo' hhi' hinv htw
+    have hb1 : 2 * redBound r m.reduce M ≤ invOut q r m M tw.isEmpty := by
+      unfold invOut; simp only []; split <;> omega
+    have hb2 : redBound r m.reduce M + m.q2bs ≤ invOut q r m M tw.isEmpty := by
+      unfold invOut; simp only []; split <;> omega
+    simp only [invBfly, List.map_cons, addL, subL, List.zipWith_cons_cons, List.length_cons, scalePow_cons] at *
+    refine ⟨?_, ?_, ?_, ?_, ?_, ?_⟩
+    · rw [e1, i1]
+    · rw [e2, i2]
+    · intro x hx
+      rcases List.mem_cons.mp hx with rfl | hx
+      · exact le_trans l1 hb1
+      · by_cases hemp : tw = []
+        · subst hemp
+          have : lo' = [] := List.length_eq_zero_iff.mp h1'.symm
+          subst this
+          simp [invTail] at hx
+        · have : tw.isEmpty = false := by cases tw <;> simp_all
+          have hb3 : redBound r m.reduce M + spmBound q m.halfBs (redBound r m.reduce M) ≤ invOut q r m M tw.isEmpty := by
+            unfold invOut; simp only [this]; simp
+          exact le_trans (i3 x hx) hb3
+    · intro x hx
+      rcases List.mem_cons.mp hx with rfl | hx
+      · exact le_trans l2 hb2
+      · exact le_trans (i4 x hx) hb2
+    · rw [i5]
+    · rw [i6]
+
+/-! ### all inverse levels, last pass, whole inverse transform -/
+
+/-- worst-case magnitude after the inverse levels of a block (levels in block-size-descending order) -/
+def invChainOut (q : Nat) (r : ReducK) : List Level → Nat → Nat
+  | [], M => M
+  | (m, tw) :: rest, M => invOut q r m (invChainOut q r rest M) tw.isEmpty
+
+def InvLevelsOK (q : Nat) (r : ReducK) : ZMod q → List Level → Nat → Prop
+  | _, [], _ => True
+  | ρ, (m, tw) :: rest, M =>
+    InvLevelsOK q r (ρ * ρ) rest M ∧ invChainOut q r rest M < 2 ^ 64 ∧
+    BflyOK q m (redBound r m.reduce (invChainOut q r rest M)) ∧ tw.length + 1 = 2 ^ rest.length ∧
+    (tw ≠ [] → InvOK q m (redBound r m.reduce (invChainOut q r rest M))) ∧ TwFrom q m.halfBs ρ ρ tw
+
+/-- **the executable inverse levels refine the mathematical network** -/
+theorem inttLevels_spec (r : ReducK) (hr : ReducOK q r) :
+    ∀ (levels : List Level) (ρ : ZMod q) (M : Nat) (v : List Nat), InvLevelsOK q r ρ levels M →
+      v.length = 2 ^ levels.length → AllLe M v →
+      (inttLevels r levels v).map (cz q) = dit ρ levels.length (v.map (cz q)) ∧
+      AllLe (invChainOut q r levels M) (inttLevels r levels v) ∧ (inttLevels r levels v).length = v.length := by
+  intro levels
+  induction levels with
+  | nil => intro ρ M v _ _ h; simpa [inttLevels, dit, invChainOut] using h
+  | cons l rest ih =>
+    intro ρ M v hok hv hle
+    obtain ⟨m, tw⟩ := l
+    obtain ⟨hrest, hM, hb, htl, hinv, htw⟩ := hok
+    have hv' : v.length = 2 ^ (rest.length + 1) := by simpa using hv
+    obtain ⟨h2, hlo, hhi⟩ := halves_length v rest.length hv'
+    obtain ⟨i1, b1, j1⟩ := ih (ρ * ρ) M _ hrest hlo (hle.take _)
+    obtain ⟨i2, b2, j2⟩ := ih (ρ * ρ) M _ hrest hhi (hle.drop _)
+    obtain ⟨e1, e2, c1, c2, n1, n2⟩ := invBfly_spec r hr m _ hM hb ρ tw _ _
+      (by rw [j1, hlo]; exact htl) (by rw [j1, j2, hlo, hhi]) b1 b2 hinv htw
+    simp only [inttLevels, List.length_cons, dit, List.map_append, List.length_map, invChainOut]
+    rw [e1, e2, i1, i2, map_take, map_drop]
+    refine ⟨rfl, c1.append c2, ?_⟩
+    rw [List.length_append, n1, n2, j1, hlo, hv', pow_succ]; ring
+
+/-- conditions on an inverse table of size `2^k` (`k ≥ 1`) with `ω' = ω⁻¹` and `ninv = n⁻¹` -/
+def InvTableOK (q : Nat) (t : TableK) (ω' ninv : ZMod q) : Prop :=
+  ReducOK q t.reduc ∧
+  match t.levels.reverse with
+  | [] => False
+  | (mL, twL) :: revL =>
+    InvLevelsOK q t.reduc (ω' * ω') revL (2 ^ 64 - 1) ∧ invChainOut q t.reduc revL (2 ^ 64 - 1) < 2 ^ 64 ∧
+    SpmOK q mL (redBound t.reduc mL.reduce (invChainOut q t.reduc revL (2 ^ 64 - 1))) ∧
+    twL.length = 2 ^ revL.length ∧ TwFrom q mL.halfBs ω' ninv twL
+
+/-- **`intt_ref` (one lane) computes `inttM ω⁻¹ n⁻¹` modulo `q`** on every `u64` input vector -/
+theorem inttK_spec (t : TableK) (ω' ninv : ZMod q) (ok : InvTableOK q t ω' ninv) (v : List Nat)
+    (hv : v.length = 2 ^ (t.levels.length - 1)) (hu : AllLe (2 ^ 64 - 1) v) :
+    (inttK t v).map (cz q) = inttM ω' ninv (t.levels.length - 1) (v.map (cz q)) ∧ (inttK t v).length = v.length := by
+  obtain ⟨hr, hl⟩ := ok
+  unfold inttK inttM
+  have hlen : t.levels.reverse.length = t.levels.length := List.length_reverse
+  match hlv : t.levels.reverse, hl with
+  | (mL, twL) :: revL, hl =>
+    obtain ⟨hlev, hMw, sp, htl, htw⟩ := hl
+    have hk : t.levels.length - 1 = revL.length := by rw [← hlen, hlv]; simp
+    rw [hk] at hv ⊢
+    obtain ⟨e1, b1, n1⟩ := inttLevels_spec t.reduc hr revL (ω' * ω') _ v hlev hv hu
+    obtain ⟨e2, _, n2⟩ := twist_spec mL (invChainOut q t.reduc revL (2 ^ 64 - 1)) _ sp ω' (redIf t.reduc mL)
+      (fun x hx => redIf_spec t.reduc hr mL x _ hx hMw) _ twL ninv (by rw [n1, hv, htl]) b1 htw
+    simp only []
+    rw [e2, e1, scaleFrom_eq_map]
     exact ⟨rfl, by rw [n2, n1]⟩
 
 end Ntt120
